@@ -52,6 +52,11 @@ def pmf_cases(tier, rng):
             k = min(hi, max(lo, mode + rng.randrange(-3, 4)))
             cs.append("pmf %d %d %d %d" % (N, K, n, k))
         cs.append("pmf %d %d %d %d" % (N, N // 2, N // 2, N // 4))
+        # the whole range of k, including the zero-probability region (where a factor is 0 and another may overflow),
+        # and draws close to N (denominator finite while numerator factors overflow)
+        for _ in range(6 if tier == "quick" else 40):
+            K = rng.randrange(N // 2, N + 1); n = rng.choice([N - 1, N - 2, N - rng.randrange(1, 60), rng.randrange(0, N + 1)])
+            cs.append("pmf %d %d %d %d" % (N, K, n, rng.randrange(0, n + 2)))
     return cs
 
 
@@ -116,7 +121,7 @@ def check(rep, tier, seed):
     # thousands of chromosomes, mid-range targets: finite, mass-preserving, non-negative output required on the
     # implementation (the exact model is too slow to evaluate here: n*m*3 binomials of several hundred digits)
     huge = []
-    for n, m in [(1001, 501), (1201, 601), (2001, 1001), (2001, 1500), (4001, 2001), (3001, 2999)]:
+    for n, m in [(1001, 501), (1201, 601), (1101, 1100), (1201, 1150), (2001, 1001), (2001, 1500), (2001, 1995), (4001, 2001), (3001, 2999)]:
         if tier == "quick" and n > 2001:
             continue
         data = [rng.randrange(0, 50) for _ in range(n)]
